@@ -553,6 +553,11 @@ impl<'s> Ctx<'s> {
             let msg = take_panic();
             // location only (no values) for the signature
             let loc = msg.rsplit(" @ ").next().unwrap_or("?").to_string();
+            // keep the signature independent of where the tree under test lives
+            let loc = match loc.find("etherparse/src/") {
+                Some(p) => loc[p..].to_string(),
+                None => loc,
+            };
             c.fails.push((
                 format!("panic:{}:{}", c.at, loc),
                 format!("panic escaped at entry point `{}`: {}", c.at, msg),
